@@ -16,6 +16,14 @@ type SlotContent struct {
 	Props map[string]any
 	// TemplateNode holds the original template node for processing scoped slots.
 	TemplateNode *html.Node
+
+	// scope is the slot scope in effect where the content was written (the
+	// includer's), so that a <slot> inside supplied content refers to the
+	// includer's own slots and not to the component being filled.
+	scope *SlotScope
+	// depth is the height of the variable stack where the content was written;
+	// supplied content is evaluated with exactly those scopes plus the slot props.
+	depth int
 }
 
 // SlotScope holds all slot contents indexed by name for a component instance.
@@ -71,48 +79,7 @@ func (v *Vue) evalSlot(ctx VueContext, node *html.Node, slotScope *SlotScope) ([
 	// Try to get provided slot content (from explicit include or inherited from layout)
 	if slotScope != nil {
 		if slotContent := slotScope.GetSlot(slotName); slotContent != nil {
-			// Found explicit slot content - evaluate it with the scoped props
-			result := []*html.Node{}
-
-			// If the slot content is a template with v-slot, evaluate it with the props
-			if slotContent.TemplateNode != nil {
-				// Extract scoped variable name from the template's v-slot attribute
-				scopedVarName := ""
-				for _, attr := range slotContent.TemplateNode.Attr {
-					if attr.Key == "v-slot" {
-						scopedVarName = attr.Val
-					} else if strings.HasPrefix(attr.Key, "v-slot:") || (len(attr.Key) > 0 && attr.Key[0] == '#') {
-						// For named slots, extract the scoped var from the attribute value
-						scopedVarName = attr.Val
-					}
-				}
-
-				// Push the scoped props onto the stack
-				ctx.stack.Push(nil)
-				defer ctx.stack.Pop()
-
-				// If there's a scoped variable name, use it; otherwise use the props directly
-				if scopedVarName != "" {
-					ctx.stack.Set(scopedVarName, slotProps)
-				} else {
-					// Set the slot props directly in the context
-					for k, v := range slotProps {
-						ctx.stack.Set(k, v)
-					}
-				}
-
-				// Evaluate the template content (children of the template)
-				children, err := v.evaluateChildren(ctx, slotContent.TemplateNode, 0)
-				if err != nil {
-					return nil, err
-				}
-				result = append(result, children...)
-			} else {
-				// Use the provided content as-is
-				result = append(result, slotContent.Nodes...)
-			}
-
-			return result, nil
+			return v.evalSuppliedSlot(ctx, slotContent, slotProps)
 		}
 	}
 
@@ -120,8 +87,7 @@ func (v *Vue) evalSlot(ctx VueContext, node *html.Node, slotScope *SlotScope) ([
 	if inheritedSlotScopeData, ok := ctx.stack.EnvMap()["__slotScope__"]; ok {
 		if inheritedSlotScope, ok := inheritedSlotScopeData.(*SlotScope); ok {
 			if slotContent := inheritedSlotScope.GetSlot(slotName); slotContent != nil {
-				// Use the inherited slot content directly (already parsed as DOM nodes)
-				return slotContent.Nodes, nil
+				return v.evalSuppliedSlot(ctx, slotContent, slotProps)
 			}
 		}
 	}
@@ -133,4 +99,64 @@ func (v *Vue) evalSlot(ctx VueContext, node *html.Node, slotScope *SlotScope) ([
 	}
 
 	return []*html.Node{}, nil
+}
+
+// evalSuppliedSlot evaluates content supplied for a slot. Every use evaluates a
+// fresh copy of the supplied nodes, in the scope where the content was written
+// (the includer's variables) extended with the props the slot binds.
+func (v *Vue) evalSuppliedSlot(ctx VueContext, slotContent *SlotContent, slotProps map[string]any) ([]*html.Node, error) {
+	st := ctx.stack
+
+	// Hide the scopes pushed since the content was written (the component's props
+	// and front-matter, loop variables inside the component) for the evaluation.
+	depth := slotContent.depth
+	if depth <= 0 || depth > len(st.stack) {
+		depth = len(st.stack)
+	}
+	for len(st.pooled) < len(st.stack) {
+		st.pooled = append(st.pooled, false)
+	}
+	hidden := append([]map[string]any(nil), st.stack[depth:]...)
+	hiddenPooled := append([]bool(nil), st.pooled[depth:]...)
+	st.stack, st.pooled = st.stack[:depth], st.pooled[:depth]
+	defer func() {
+		st.stack = append(st.stack[:depth], hidden...)
+		st.pooled = append(st.pooled[:depth], hiddenPooled...)
+	}()
+
+	st.Push(nil)
+	defer st.Pop()
+
+	// Extract scoped variable name from the template's v-slot attribute
+	scopedVarName := ""
+	if slotContent.TemplateNode != nil {
+		for _, attr := range slotContent.TemplateNode.Attr {
+			if attr.Key == "v-slot" || strings.HasPrefix(attr.Key, "v-slot:") || (len(attr.Key) > 0 && attr.Key[0] == '#') {
+				scopedVarName = strings.TrimSpace(attr.Val)
+			}
+		}
+	}
+	switch {
+	case strings.HasPrefix(scopedVarName, "{") && strings.HasSuffix(scopedVarName, "}"):
+		// Destructured props: v-slot="{ item, index }"
+		for _, name := range strings.Split(scopedVarName[1:len(scopedVarName)-1], ",") {
+			if name = strings.TrimSpace(name); name != "" {
+				st.Set(name, slotProps[name])
+			}
+		}
+	case scopedVarName != "":
+		st.Set(scopedVarName, slotProps)
+	default:
+		for k, val := range slotProps {
+			st.Set(k, val)
+		}
+	}
+
+	nodes := make([]*html.Node, 0, len(slotContent.Nodes))
+	for _, n := range slotContent.Nodes {
+		nodes = append(nodes, helpers.DeepCloneNode(n))
+	}
+
+	ctx.SlotScope = slotContent.scope
+	return v.evaluate(ctx, nodes, 0)
 }
